@@ -14,5 +14,8 @@ for d in sorted(glob.glob(os.path.join(ROOT, 'seeded', '*'))):
         if r['exit'] == 1:
             det.append('%s: `%s`' % (c, (r['signatures'] or ['?'])[0].replace('|', '¦')))
     missed = [c for c, r in sorted(m['checks'].items()) if r['exit'] != 1]
+    if m.get('status', '').startswith('superseded'):
+        print('| %s | %s | %s | %s | not a breaking change on the current tree (superseded by a repair, see meta.json) |' % (name, m['breaks_property'], what, needs))
+        continue
     print('| %s | %s | %s | %s | %s%s |' % (name, m['breaks_property'], what, needs, '; '.join(det) or '**not caught**',
                                           (' (not by ' + ', '.join(missed) + ')') if missed and det else ''))
